@@ -184,6 +184,58 @@ pub fn check_gen(ctx: &Ctx, c: &GenCase, st: &mut Stats) -> Result<(), Fail> {
                     );
                 }
             }
+            // a memo index that a mutator changed must be the one that is written (unsafe mode: nothing validates
+            // it; only the operand width limits it): the k-th GET-family opcode of the output carries the value
+            // returned for the k-th memo index offered
+            if c.unsafe_mutations && rate == 1.0 && !c.mutators.contains(&crate::case::MutK::Typeconfusion) {
+                if let Ok(ops) = crate::refpvm::lexer::lex_py(a.output().unwrap()) {
+                    use crate::refpvm::optable as t;
+                    let gets: Vec<(u8, i128)> = ops
+                        .iter()
+                        .filter(|o| [t::GET, t::BINGET, t::LONG_BINGET].contains(&o.code()))
+                        .filter_map(|o| match o.arg {
+                            crate::refpvm::lexer::ArgVal::Int(v) => Some((o.code(), v)),
+                            _ => None,
+                        })
+                        .collect();
+                    // one group of memo events per offered index: the last event of a group is the one that fired (if any)
+                    let mut groups: Vec<Option<usize>> = Vec::new();
+                    for e in a.spy.iter().filter(|e| e.kind == ValKind::Memo) {
+                        if e.idx == 0 {
+                            groups.push(None);
+                        }
+                        if let (Some(g), Some((_, Some(r)))) = (groups.last_mut(), e.memo_io) {
+                            if e.fired {
+                                *g = Some(r);
+                            }
+                        }
+                    }
+                    if gets.len() == groups.len() {
+                        for (k, ((code, operand), g)) in gets.iter().zip(groups.iter()).enumerate() {
+                            let Some(r) = g else { continue };
+                            let want = match *code {
+                                t::BINGET => (*r).min(255) as i128,
+                                t::LONG_BINGET => (*r).min(u32::MAX as usize) as i128,
+                                _ => *r as i128,
+                            };
+                            if *operand != want {
+                                return ctx.fail(
+                                    st,
+                                    Fail::new(
+                                        format!("memo-index-not-used:{}", t::name_of(*code)),
+                                        format!(
+                                            "{}: the {}th memo read ({}) was offered to the mutators, the first applicable one returned {}, but the opcode carries {} (expected {})",
+                                            c.brief(), k, t::name_of(*code), r, operand, want
+                                        ),
+                                    )
+                                    .with_output(a.output().unwrap()),
+                                );
+                            }
+                        }
+                        st.label("unsafe mode: every mutated memo index is the one written");
+                    }
+                }
+            }
             // the spies only observe: the same case with the registered mutators unwrapped must give the same
             // bytes (otherwise the unwrapped mutators were not offered the same values, or a different one of
             // them mutated a value, and the counts above say nothing about them)
